@@ -2,6 +2,7 @@ package main
 
 import (
 	"fmt"
+	"go/token"
 	"go/types"
 	"sort"
 	"strings"
@@ -31,6 +32,8 @@ func init() {
 			{ID: "R08c", Floor: 10, Doc: "no re-entrant acquisition through calls made while the lock is held; lock-class order acyclic", Run: ruleR08c},
 			{ID: "R08e", Floor: 2, Doc: "atomicity of put: no lock release between store.ShouldPut and the InsertNoReplace it guards", Run: ruleR08e},
 			{ID: "R08f", Floor: 2, Doc: "goroutines without the lock capture no slice/map/pointer loaded from a guarded field", Run: ruleR08f},
+			{ID: "R08g", Floor: 6, Doc: "a struct that holds a mutex by value is never copied: no value receiver, by-value parameter, or whole-struct load of such a type in the repository (a copy has its own mutex: the method excludes nobody, or inherits a locked mutex and never returns)", Run: ruleR08g},
+			{ID: "R08h", Floor: 1, Doc: "NewOffsetReadSeeker hands out a fresh cursor on every call: concurrent readers (Roots, AllKeysChan, index generation) each rely on a private position over the shared backing", Run: ruleR08h},
 			{ID: "R08d", Floor: 8, Doc: "guard-table completeness: every field of the concurrent types that is stored outside the constructor phase is in the guard table", Run: ruleR08d},
 		},
 	})
@@ -622,4 +625,125 @@ func ruleR08f(c *Ctx, r *Report) {
 		r.Check(bad == "", key, c.Pos(child.Pos()), "captures no alias of guarded storage (or holds the lock)", bad)
 	}
 	r.Count("goroutines checked for captured aliases", n)
+}
+
+func holdsLockByValue(t types.Type, seen map[types.Type]bool) bool {
+	if seen[t] {
+		return false
+	}
+	seen[t] = true
+	if n := namedOf(t); n != nil && n.Obj().Pkg() != nil && n.Obj().Pkg().Path() == "sync" {
+		switch n.Obj().Name() {
+		case "Mutex", "RWMutex", "WaitGroup", "Once", "Cond":
+			if _, isPtr := t.(*types.Pointer); !isPtr {
+				return true
+			}
+		}
+	}
+	switch u := t.Underlying().(type) {
+	case *types.Struct:
+		for i := 0; i < u.NumFields(); i++ {
+			if holdsLockByValue(u.Field(i).Type(), seen) {
+				return true
+			}
+		}
+	case *types.Array:
+		return holdsLockByValue(u.Elem(), seen)
+	}
+	return false
+}
+
+// ruleR08g: one obligation per lock-holding type of the repository.
+func ruleR08g(c *Ctx, r *Report) {
+	type holder struct {
+		key string
+		pos token.Pos
+		bad []string
+	}
+	holders := map[*types.TypeName]*holder{}
+	for _, p := range c.Pkgs {
+		sc := p.Types.Scope()
+		for _, n := range sc.Names() {
+			tn, ok := sc.Lookup(n).(*types.TypeName)
+			if !ok || tn.IsAlias() {
+				continue
+			}
+			if _, isStruct := tn.Type().Underlying().(*types.Struct); !isStruct {
+				continue
+			}
+			if holdsLockByValue(tn.Type(), map[types.Type]bool{}) {
+				holders[tn] = &holder{key: "lock-holder@" + shortPkg(p.PkgPath) + "." + tn.Name(), pos: tn.Pos()}
+			}
+		}
+	}
+	isHolder := func(t types.Type) *holder {
+		if _, isPtr := t.(*types.Pointer); isPtr {
+			return nil
+		}
+		n, ok := t.(*types.Named)
+		if !ok {
+			return nil
+		}
+		return holders[n.Obj()]
+	}
+	for _, fn := range c.RepoFuncs() {
+		for _, f := range withAnon(fn) {
+			for _, p := range f.Params {
+				if h := isHolder(p.Type()); h != nil {
+					h.bad = append(h.bad, fmt.Sprintf("%s takes it by value (parameter/receiver %s) at %s", fnKey(f), p.Name(), c.Pos(f.Pos())))
+				}
+			}
+			eachInstr(f, func(in ssa.Instruction) {
+				u, ok := in.(*ssa.UnOp)
+				if !ok || u.Op != token.MUL {
+					return
+				}
+				if h := isHolder(u.Type()); h != nil {
+					// a load of a freshly allocated, never shared local (composite literal being built) is not a copy of a live lock
+					if al, isAl := u.X.(*ssa.Alloc); isAl && !al.Heap {
+						return
+					}
+					h.bad = append(h.bad, fmt.Sprintf("copied by value in %s at %s", fnKey(f), c.Pos(u.Pos())))
+				}
+			})
+		}
+	}
+	var keys []*holder
+	for _, h := range holders {
+		keys = append(keys, h)
+	}
+	sort.Slice(keys, func(i, j int) bool { return keys[i].key < keys[j].key })
+	for _, h := range keys {
+		sort.Strings(h.bad)
+		r.Check(len(h.bad) == 0, h.key, c.Pos(h.pos), "only used through pointers", strings.Join(h.bad, "; ")+": the copy carries its own mutex")
+	}
+}
+
+func ruleR08h(c *Ctx, r *Report) {
+	fn, err := c.Func(pkgIntIO, "", "NewOffsetReadSeeker")
+	if err != nil {
+		r.InfraFail("%v", err)
+		return
+	}
+	key := "fresh-cursor@" + fnKey(fn)
+	bad := ""
+	n := 0
+	for _, ret := range returnsOf(fn) {
+		if len(ret.Results) == 0 || isNilConst(ret.Results[0]) {
+			continue
+		}
+		for _, o := range origins(ret.Results[0], originOpts{}) {
+			if o.Kind == "alloc" {
+				if al, ok := o.Val.(*ssa.Alloc); ok && al.Parent() == fn {
+					n++
+					continue
+				}
+			}
+			bad = fmt.Sprintf("the return at %s hands out a value that is not allocated by this call (%s): two callers then share one read position", c.Pos(ret.Pos()), o.Kind)
+		}
+	}
+	if bad == "" && n == 0 {
+		bad = "no allocating return found"
+	}
+	r.Check(bad == "", key, c.Pos(fn.Pos()), fmt.Sprintf("%d return(s), each a fresh offsetReadSeeker", n), bad)
 }
